@@ -308,8 +308,129 @@ def verify_reg_bridge_init(freeze_clause=False):
     return fv
 
 
+def verify_monitor_init():
+    """event.Monitor.__init__(event_map, trigger="level")   (C13 / C14: the masks are as wide as the event map says, for ANY number of events)
+    anything but an EventMap is refused and the constructor itself refuses nothing else; accepted => the three masks `enable`, `pending`,
+    `clear` all have width event_map.size, `src` carries a Source.Signature built with the trigger argument AS GIVEN, there is no other
+    member, and src.event_map is the very map given"""
+    FILE = "amaranth_soc/event.py"
+    fv = FnVerifier("event.Monitor.__init__", [])
+    fn = find_def(FILE, "Monitor.__init__")
+    n_ok = 0
+    for case in ("foreign", "map"):
+        ex = Exec(FILE, "Monitor", axioms=[])
+        n = z3.Int("event_map_size")
+        emap = SymObj("EventMap", "event_map"); emap.init_fields["size"] = n
+        foreign = Opaque("not an EventMap")
+        trig = Opaque("trigger argument")
+        sigs = []
+
+        def isinst(v, ty, node, foreign=foreign):
+            if v is foreign:
+                return z3.BoolVal(False)
+            return None
+        ex.isinstance_hook = isinst
+
+        def c_sig(ex_, recv, a, k, q, node, sigs=sigs):
+            obj = SymObj("Source.Signature", "src signature")
+            sigs.append((tuple(a), dict(k), obj))
+            return [(obj, q), (Raised("refused-by-Source.Signature"), q.fork())]
+        ex.contracts["Source.Signature"] = c_sig
+        ex.contracts["In"] = lambda ex_, recv, a, k, q, node: [(("In", a[0]), q)]
+        ex.contracts["Out"] = lambda ex_, recv, a, k, q, node: [(("Out", a[0]), q)]
+        ex.contracts["super"] = lambda ex_, recv, a, k, q, node: [(Opaque("super()"), q)]
+        self_ = SymObj("Monitor", "self")
+
+        class SrcModel:
+            def setattr(self, ex_, obj, attr, value, q, node):
+                if attr != "event_map":
+                    return None
+                q.heap[(id(obj), attr)] = value
+                q.writes.append((obj.name, attr))
+                return [("fall", None, q), ("raise", "refused-by-event_map-setter", q.fork())]
+
+        def c_super_init(ex_, recv, a, k, q, node, self_=self_):
+            if not isinstance(a[0], DictLit):
+                raise Unsupported("wiring.Component.__init__ with something else than a dict literal")
+            q.ghost["members"] = a[0].items
+            q.heap[(id(self_), "src")] = SymObj("Source", "self.src", model=SrcModel())
+            return [(NONE, q)]
+        ex.contracts["super().__init__"] = c_super_init
+        q = Path(); q.assume(n >= 0)
+        q.env.update({"self": self_, "event_map": foreign if case == "foreign" else emap, "trigger": trig})
+        outs = ex.run(fn, q)
+        fv.paths += len(outs)
+        for k, o in enumerate(outs):
+            p, lab = o.path, f"{case}:path{k}"
+            if case == "foreign":
+                fv.add("foreign-object-refused", lab, p.pc, z3.BoolVal(o.kind == "raise"))
+                continue
+            if o.kind == "raise":
+                fv.add("the-constructor-itself-refuses-nothing", lab, p.pc, z3.BoolVal(o.exc.startswith("refused-by-")))
+                continue
+            n_ok += 1
+            mem = p.ghost.get("members", {})
+            fv.add("members-are-src-enable-pending-clear", lab, p.pc, z3.BoolVal(set(mem) == {"src", "enable", "pending", "clear"}))
+            if set(mem) != {"src", "enable", "pending", "clear"}:
+                continue
+            for nm in ("enable", "pending", "clear"):
+                w = mem[nm][1] if isinstance(mem[nm], tuple) and len(mem[nm]) == 2 else None
+                fv.add(f"mask-{nm}-is-as-wide-as-the-event-map", lab, p.pc, (ex.toint(w) == n) if isinstance(w, (z3.ArithRef, int)) else z3.BoolVal(False))
+            ok_src = (len(sigs) == 1 and isinstance(mem["src"], tuple) and mem["src"][1] is sigs[0][2] and not sigs[0][0]
+                      and set(sigs[0][1]) == {"trigger"} and sigs[0][1]["trigger"] is trig)
+            fv.add("src-signature-built-with-the-trigger-as-given", lab, p.pc, z3.BoolVal(bool(ok_src)))
+            src = p.heap.get((id(self_), "src"))
+            fv.add("src-carries-the-very-event-map-given", lab, p.pc, z3.BoolVal(src is not None and p.heap.get((id(src), "event_map")) is emap))
+        fv.add_engine_obligations(ex)
+    fv.add("cover:accepting-paths", "vacuity", [], z3.BoolVal(n_ok >= 1))
+    return fv
+
+
+def _verify_align_to(FILE, cls, qual):
+    """Decoder.align_to(alignment): the argument goes UNCHANGED to the bus memory map's align_to, exactly once, and only the map refuses
+    (what the method returns is not claimed: no property speaks about it)"""
+    fv = FnVerifier(qual, [])
+    fn = find_def(FILE, f"{cls}.align_to")
+    ex = Exec(FILE, cls, axioms=[])
+    calls = []
+    result = Opaque("what the map's align_to returned")
+
+    class MapModel:
+        def call_align_to(self, ex_, recv, a, kw, q, node):
+            q.ghost["align_calls"] = q.ghost.get("align_calls", ()) + ((tuple(a), dict(kw)),)
+            return [(result, q), (Raised("refused-by-MemoryMap.align_to"), q.fork())]
+    mp = SymObj("MemoryMap", "self.bus.memory_map", model=MapModel())
+    bus = SymObj("Interface", "self.bus"); bus.init_fields["memory_map"] = mp
+    self_ = SymObj(cls, "self"); self_.init_fields["bus"] = bus
+    arg = Opaque("alignment argument")
+    q = Path(); q.env.update({"self": self_, "alignment": arg})
+    outs = ex.run(fn, q)
+    fv.paths = len(outs)
+    n_ok = 0
+    for k, o in enumerate(outs):
+        p, lab = o.path, f"path{k}"
+        if o.kind == "raise":
+            fv.add("refuses-only-when-the-map-does", lab, p.pc, z3.BoolVal(o.exc.startswith("refused-by-")))
+            continue
+        n_ok += 1
+        c = p.ghost.get("align_calls", ())
+        fv.add("argument-forwarded-unchanged-exactly-once", lab, p.pc,
+               z3.BoolVal(len(c) == 1 and ((c[0][0] == (arg,) and not c[0][1]) or (not c[0][0] and set(c[0][1]) == {"alignment"} and c[0][1]["alignment"] is arg))))
+    fv.add("cover:accepting-paths", "vacuity", [], z3.BoolVal(n_ok >= 1))
+    fv.add_engine_obligations(ex)
+    return fv
+
+
+def verify_csr_decoder_align_to():
+    return _verify_align_to(FILE_BUS, "Decoder", "csr.bus.Decoder.align_to")
+
+
+def verify_wb_decoder_align_to():
+    return _verify_align_to("amaranth_soc/wishbone/bus.py", "Decoder", "wishbone.bus.Decoder.align_to")
+
+
 def verify_reg_bridge_init_freezes():
     return verify_reg_bridge_init(freeze_clause=True)
 
 
-ALL = [verify_mux_check_memory_map, verify_mux_init, verify_reg_bridge_init]
+ALL = [verify_mux_check_memory_map, verify_mux_init, verify_reg_bridge_init, verify_monitor_init, verify_csr_decoder_align_to, verify_wb_decoder_align_to]
